@@ -61,13 +61,26 @@ impl std::io::Read for Chunked<'_> {
 	fn read(&mut self, out: &mut [u8]) -> std::io::Result<usize> {
 		let avail = std::io::BufRead::fill_buf(self)?;
 		let n = if avail.len() < out.len() { avail.len() } else { out.len() };
-		let mut i = 0;
-		while i < n {
-			out[i] = avail[i];
-			i += 1;
-		}
+		out[..n].copy_from_slice(&avail[..n]);
 		std::io::BufRead::consume(self, n);
 		Ok(n)
+	}
+	/// Like `BufReader`, `read_exact` is specialised: all-or-`UnexpectedEof`. The bytes delivered do
+	/// not depend on the refill schedule; afterwards the internal buffer is empty unless the request
+	/// was served from the current chunk.
+	fn read_exact(&mut self, out: &mut [u8]) -> std::io::Result<()> {
+		let rem = self.data.len() - self.pos;
+		if rem < out.len() {
+			self.pos = self.data.len();
+			self.end = self.pos;
+			return Err(std::io::Error::from(std::io::ErrorKind::UnexpectedEof));
+		}
+		out.copy_from_slice(&self.data[self.pos..self.pos + out.len()]);
+		self.pos += out.len();
+		if self.end < self.pos {
+			self.end = self.pos;
+		}
+		Ok(())
 	}
 }
 impl std::io::BufRead for Chunked<'_> {
